@@ -28,6 +28,7 @@
 //! rewind.k        move k's sigrefs to its first parent
 //! mark.k.m        remember the current sigrefs tip of k on this side under the name m (for `refsat=k:m`)
 //! delcanon        delete the canonical (non-namespaced) refs/rad/id
+//! revorder        (S only) the server lists references in REVERSE name order in every ls-refs response
 //! ```
 //!
 //! Everything after a ` | ` token in a case line is the *abstract world* the harness extracted for the
@@ -72,8 +73,81 @@ const RAD_ID: &str = "refs/rad/id";
 
 struct UploadPack {
     child: Child,
-    stdout: ChildStdout,
+    stdout: PktReader,
     stdin: HeaderSkippingWriter,
+}
+
+/// The serving side's output. With `reverse`, every `ls-refs` response (a run of `<oid> <refname>…`
+/// pkt-lines up to the flush packet) is delivered with its lines in REVERSE order: a hand-written server
+/// is free to list references in any order, `git upload-pack` always sorts them by name.
+struct PktReader {
+    inner: ChildStdout,
+    buf: std::collections::VecDeque<u8>,
+    reverse: bool,
+}
+
+impl PktReader {
+    /// Read one pkt-line (header included) from the child; `None` at end of stream.
+    fn pkt(&mut self) -> io::Result<Option<Vec<u8>>> {
+        use std::io::Read;
+        let mut head = [0u8; 4];
+        let mut got = 0;
+        while got < 4 {
+            let n = self.inner.read(&mut head[got..])?;
+            if n == 0 {
+                return if got == 0 { Ok(None) } else { Err(io::Error::from(io::ErrorKind::UnexpectedEof)) };
+            }
+            got += n;
+        }
+        let len = std::str::from_utf8(&head)
+            .ok()
+            .and_then(|s| usize::from_str_radix(s, 16).ok())
+            .ok_or_else(|| io::Error::from(io::ErrorKind::InvalidData))?;
+        let mut pkt = head.to_vec();
+        if len > 4 {
+            pkt.resize(len, 0);
+            self.inner.read_exact(&mut pkt[4..])?;
+        }
+        Ok(Some(pkt))
+    }
+
+    fn is_ref_line(pkt: &[u8]) -> bool {
+        pkt.len() > 4 + 46 && pkt[4..44].iter().all(|c| c.is_ascii_hexdigit()) && &pkt[44..50] == b" refs/"
+    }
+}
+
+impl io::Read for PktReader {
+    fn read(&mut self, out: &mut [u8]) -> io::Result<usize> {
+        if !self.reverse {
+            return self.inner.read(out);
+        }
+        if self.buf.is_empty() {
+            let Some(first) = self.pkt()? else { return Ok(0) };
+            if Self::is_ref_line(&first) {
+                let mut lines = vec![first];
+                loop {
+                    let Some(p) = self.pkt()? else { break };
+                    if Self::is_ref_line(&p) {
+                        lines.push(p);
+                    } else {
+                        lines.reverse();
+                        lines.push(p);
+                        break;
+                    }
+                }
+                for l in lines {
+                    self.buf.extend(l);
+                }
+            } else {
+                self.buf.extend(first);
+            }
+        }
+        let n = out.len().min(self.buf.len());
+        for (i, b) in self.buf.drain(..n).enumerate() {
+            out[i] = b;
+        }
+        Ok(n)
+    }
 }
 
 struct HeaderSkippingWriter {
@@ -83,7 +157,7 @@ struct HeaderSkippingWriter {
 }
 
 impl UploadPack {
-    fn spawn(git_dir: &Path) -> io::Result<Self> {
+    fn spawn(git_dir: &Path, reverse: bool) -> io::Result<Self> {
         let mut child = Command::new("git")
             .current_dir(git_dir)
             .env_clear()
@@ -106,6 +180,7 @@ impl UploadPack {
             .spawn()?;
         let stdin = child.stdin.take().unwrap();
         let stdout = child.stdout.take().unwrap();
+        let stdout = PktReader { inner: stdout, buf: Default::default(), reverse };
         Ok(Self { child, stdout, stdin: HeaderSkippingWriter { stdin: Some(stdin), header: Some(Vec::new()) } })
     }
 }
@@ -119,7 +194,7 @@ impl Drop for UploadPack {
 }
 
 impl ConnectionStream for UploadPack {
-    type Read = ChildStdout;
+    type Read = PktReader;
     type Write = HeaderSkippingWriter;
     type Error = io::Error;
 
@@ -198,6 +273,8 @@ pub enum Verb {
     Rewind(usize),
     Mark(usize, String),
     DelCanon,
+    /// The serving side lists references in reverse name order (a hand-written server may).
+    RevOrder,
 }
 
 #[derive(Clone, Debug)]
@@ -313,6 +390,7 @@ impl Scenario {
                     ("rewind", 3) => Verb::Rewind(k(2)?),
                     ("mark", 4) => Verb::Mark(k(2)?, f[3].to_string()),
                     ("delcanon", 2) => Verb::DelCanon,
+                    ("revorder", 2) if side == Side::S => Verb::RevOrder,
                     _ => return None,
                 };
                 if side == Side::B && ops.iter().any(|(s, _)| *s != Side::B) {
@@ -601,6 +679,7 @@ impl Exec<'_> {
             Verb::DelCanon => {
                 st.raw.find_reference(RAD_ID)?.delete()?;
             }
+            Verb::RevOrder => {}
         }
         Ok(())
     }
@@ -644,6 +723,8 @@ pub struct World {
     refsat: Option<Vec<(usize, git2::Oid)>>,
     l: BTreeMap<(usize, String), git2::Oid>,
     a: BTreeMap<(usize, String), git2::Oid>,
+    /// the advertisement is listed in reverse order
+    a_rev: bool,
     /// `(key, sigrefs commit)` ↦ what an independent reading of the commit gives (`None` = unloadable).
     blobs: BTreeMap<(usize, usize), Option<BlobInfo>>,
     anc: BTreeMap<(usize, usize), char>,
@@ -663,6 +744,9 @@ impl World {
         }
     }
     fn show_refdb(&self, db: &BTreeMap<(usize, String), git2::Oid>) -> String {
+        self.show_refdb_ordered(db, false)
+    }
+    fn show_refdb_ordered(&self, db: &BTreeMap<(usize, String), git2::Oid>, rev: bool) -> String {
         if db.is_empty() {
             return "-".into();
         }
@@ -674,6 +758,9 @@ impl World {
             })
             .collect();
         v.sort();
+        if rev {
+            v.reverse();
+        }
         v.iter().map(|(k, n, o)| format!("{k}:{n}:{o}")).collect::<Vec<_>>().join(",")
     }
     fn show_doc(d: &DocInfo) -> String {
@@ -747,7 +834,7 @@ impl World {
             Self::list(&self.blocked),
             refsat,
             self.show_refdb(&self.l),
-            self.show_refdb(&self.a),
+            self.show_refdb_ordered(&self.a, self.a_rev),
             blobs,
             anc,
         )
@@ -984,6 +1071,7 @@ impl Lab {
             refsat: refsat.clone(),
             l: lrefs.clone(),
             a: arefs.clone(),
+            a_rev: sc.ops.iter().any(|(_, v)| matches!(v, Verb::RevOrder)),
             blobs: BTreeMap::new(),
             anc: BTreeMap::new(),
         };
@@ -1076,7 +1164,7 @@ impl Lab {
         let refs_at: Option<Vec<RefsAt>> =
             refsat.as_ref().map(|v| v.iter().map(|(k, o)| RefsAt { remote: lab.keys[*k], at: (*o).into() }).collect());
         let result = {
-            let conn = UploadPack::spawn(&s_path)?;
+            let conn = UploadPack::spawn(&s_path, w.a_rev)?;
             let mut handle = Handle::new(lab.keys[sc.local], l_repo, allowed, blocked, conn)?;
             let remote = lab.keys[SERVER];
             let clone = sc.clone;
